@@ -18,8 +18,9 @@ MODELLED = ["MarkovChainSDE.simulate_one_path / CouplingSDE.simulate_one_path_wi
             "bookkeeping (hand model Model/Euler.v over Q lists, tied by vm_compute correspondence on real objects)",
             "numpy matmul/broadcast/cumsum/diff modelled by list functions of Base/QVec.v (shape errors not modelled)",
             "np.searchsorted modelled as the number of leading entries < t (equal on sorted tenors); np.prod as a left fold",
-            "sde drift b: arbitrary in the theorems, zero (LevyDrivenSDEModel.drift) in the correspondence; the Libor-market drift "
-            "(MarkovChainLevyLiborModel.sde_drift, quadrature) and Libor/ForwardMarket SDE functions are not covered",
+            "coefficient and sde drift: arbitrary functions of (t, x) in the theorems; in the correspondence Constant, DiagX and the "
+            "harness-defined time-dependent a(t,x) = (1+t) base(t,x), b(t,x) = beta t x (exact); the real Libor / forward-market sigma(t) x "
+            "coefficient and quadrature drift are checked by an implementation-only left-point Euler oracle (tolerance 1e-12), not modelled in Coq",
             "epsilon = h ** Blumenthal-Getoor index is passed to the driver as data (C15 covers the time-step cap)"]
 ASSUMPTIONS = ["floats are modelled by exact rationals: exact comparison on dyadic inputs whose Euler recursion stays within 53 bits "
                "(checked by recomputation in Fractions), absolute tolerance 1e-9 otherwise; df: tolerance 2^-45",
@@ -64,9 +65,37 @@ def step_driver(rng, d):
     return model, (lambda: make_grid(axis, n_side, h, dimension=d))
 
 
-def make_a(kind, m, d, c):
-    from rpylib.model.levydrivensde.levydrivensde import Constant, DiagX
-    return Constant(m=m, d=d, constant=c) if kind == "const" else DiagX(dimension=m)
+def make_a(kind, m, d, c, tdep=False):
+    """Constant / DiagX, or (tdep) the harness-defined time-dependent coefficient a(t, x) = (1 + t) * base(t, x)
+    (a subclass of rpylib's SDEFunction plugged into the model's `a` slot)"""
+    from rpylib.model.levydrivensde.levydrivensde import Constant, DiagX, SDEFunction
+    base = Constant(m=m, d=d, constant=c) if kind == "const" else DiagX(dimension=m)
+    if not tdep:
+        return base
+
+    class TimeScaled(SDEFunction):
+        def __init__(self):
+            super().__init__(m=base.shape[0], d=base.shape[1])
+
+        def __call__(self, t, x):
+            return (1.0 + t) * base(t, x)
+
+    return TimeScaled()
+
+
+def make_model(driver, x0, a, beta=0.0):
+    """LevyDrivenSDEModel; with beta != 0 a subclass whose sde drift depends on time: b(t, x) = beta * t * x"""
+    import numpy as np
+    from rpylib.model.levydrivensde.levydrivensde import LevyDrivenSDEModel
+    x0v = np.array(x0) if len(x0) > 1 else x0[0]
+    if not beta:
+        return LevyDrivenSDEModel(driver=driver, x0=x0v, a=a)
+
+    class TimeDriftModel(LevyDrivenSDEModel):
+        def drift(self, t=0, x=0):
+            return beta * t * x
+
+    return TimeDriftModel(driver=driver, x0=x0v, a=a)
 
 
 def sampling_method(d):
@@ -106,32 +135,51 @@ def gen_path(rng, d, coupled, nsteps):
 
 
 # ----------------------------------------------------------------------------- independent Euler recursion (oracle)
-def euler_fraction(kind, A, mu, x0, times, jrows, drows):
-    """X_{i+1} = X_i + (a(X_i) mu) dt_i + a(X_i) (dW_i + dL_i) in exact arithmetic.
-    Returns (list of states, drift path, diffusion path, jump path) as lists over time of m-vectors, and Y increments"""
+def euler_fraction(kind, A, mu, x0, times, jrows, drows, tdep=False, beta=0.0):
+    """X_{i+1} = X_i + (b(t_i,X_i) + a(t_i,X_i) mu) dt_i + a(t_i,X_i) (dW_i + dL_i) in exact arithmetic, with the coefficient and
+    the drift evaluated at the LEFT point t_i;  a = base or (1+t) base,  b = beta t x.
+    Returns (states, drift path, diffusion path, jump path, dY increments, every intermediate value the float code forms)"""
     m, d = len(x0), len(mu)
     x = [F(v) for v in x0]
     mu = [F(v) for v in mu]
     X, D, W, J = [list(x)], [[Fraction(0)] * m], [[Fraction(0)] * m], [[Fraction(0)] * m]
-    dYs = []
+    dYs, inter = [], []
     for i in range(len(times) - 1):
-        dt = F(times[i + 1]) - F(times[i])
+        t = F(times[i])
+        dt = F(times[i + 1]) - t
         dL = [F(r[i + 1]) - F(r[i]) for r in jrows]
         dW = [F(r[i + 1]) - F(r[i]) for r in drows]
         if kind == "const":
             a = [[F(A)] * d for _ in range(m)]
         else:
             a = [[x[k] if j == k else Fraction(0) for j in range(d)] for k in range(m)]
-        amu = [sum(a[k][j] * mu[j] for j in range(d)) for k in range(m)]
-        adW = [sum(a[k][j] * dW[j] for j in range(d)) for k in range(m)]
-        adL = [sum(a[k][j] * dL[j] for j in range(d)) for k in range(m)]
-        x = [x[k] + amu[k] * dt + adL[k] + adW[k] for k in range(m)]
+        if tdep:
+            a = [[(1 + t) * v for v in row] for row in a]
+            inter += [v for row in a for v in row]
+        bt = F(beta) * t
+        b = [bt * x[k] for k in range(m)]
+        inter += [bt] + b
+
+        def matvec(v):
+            out = []
+            for k in range(m):
+                acc = Fraction(0)
+                for j in range(d):
+                    pr = a[k][j] * v[j]
+                    acc += pr
+                    inter.extend([pr, acc])
+                out.append(acc)
+            return out
+        amu, adW, adL = matvec(mu), matvec(dW), matvec(dL)
+        ddt = [(b[k] + amu[k]) * dt for k in range(m)]
+        inter += [b[k] + amu[k] for k in range(m)] + ddt + [ddt[k] + adL[k] for k in range(m)] + [ddt[k] + adL[k] + adW[k] for k in range(m)]
+        x = [x[k] + ddt[k] + adL[k] + adW[k] for k in range(m)]
         X.append(list(x))
-        D.append([D[-1][k] + amu[k] * dt for k in range(m)])
+        D.append([D[-1][k] + ddt[k] for k in range(m)])
         W.append([W[-1][k] + adW[k] for k in range(m)])
         J.append([J[-1][k] + adL[k] for k in range(m)])
         dYs.append([mu[j] * dt + dL[j] + dW[j] for j in range(d)])
-    return X, D, W, J, dYs
+    return X, D, W, J, dYs, inter
 
 
 def all_doubles(vals, bits=50):
@@ -189,7 +237,7 @@ def single_cases(res, rng, tier):
     from rpylib.process.markovchain.markovchainsde import MarkovChainSDE
     from rpylib.montecarlo.path import StochasticJumpPath
     cases = []
-    n_proc = 10 if tier == "quick" else 60
+    n_proc = 12 if tier == "quick" else 60
     for ip in range(n_proc):
         d = 1 if ip % 3 else 2
         kind = "diag" if ip % 2 else "const"
@@ -197,9 +245,11 @@ def single_cases(res, rng, tier):
         driver, mkgrid = step_driver(rng, d)
         c = dy(rng, -2, 2, 4) or 1.0
         x0 = [dy(rng, 0.5, 3, 4) for _ in range(m)]
-        ctx0 = {"kind": "single", "a": kind, "m": m, "d": d, "c": c, "x0": x0}
+        tdep = ip % 4 >= 2                       # time-dependent coefficient (1+t)*a and drift beta*t*x
+        beta = dy(rng, -1, 1, 4) if tdep else 0.0
+        ctx0 = {"kind": "single", "a": kind, "m": m, "d": d, "c": c, "x0": x0, "time_dependent": tdep, "beta": beta}
         try:
-            model = LevyDrivenSDEModel(driver=driver, x0=np.array(x0) if m > 1 else x0[0], a=make_a(kind, m, d, c))
+            model = make_model(driver, x0, make_a(kind, m, d, c, tdep), beta)
             proc = MarkovChainSDE(model, sampling_method(d), mkgrid())
             proc.initialisation(the_product())
             mu = [float(v) for v in np.atleast_1d(np.asarray(proc.markov_chain.process_drift(), dtype=float)).flatten()]
@@ -239,12 +289,13 @@ def single_cases(res, rng, tier):
                 drows = rows_of(np.atleast_2d(p.diffusion_path))
                 del proc.markov_chain.simulate_one_path
             ctx.update(times=times, jump_rows=jrows, diffusion_rows=drows)
-            X, D, W, J, dYs = euler_fraction(kind, c, mu, x0, times, jrows, drows)
-            exact = (not recorded) and all_doubles([v for col in X + D + W + J for v in col])
+            X, D, W, J, dYs, inter = euler_fraction(kind, c, mu, x0, times, jrows, drows, tdep, beta)
+            exact = (not recorded) and all_doubles([v for col in X + D + W + J for v in col] + inter)
             tol = Fraction(0) if exact else TOL_INEXACT
             gD, gW, gJ = rows_of(sp.drift), rows_of(sp.diffusion_path), rows_of(sp.jump_path)
             nontriv = len(times) > 2 and any(v != 0 for r in jrows for v in r)
-            res.count(("single", kind, m, d, tuple(times), repr(jrows), repr(drows), tuple(x0)), nontrivial=nontriv, kind=f"single {kind} d={d}")
+            res.count(("single", kind, tdep, beta, m, d, tuple(times), repr(jrows), repr(drows), tuple(x0)), nontrivial=nontriv,
+                      kind=f"single {kind}{' time-dependent' if tdep else ''} d={d}")
             res.bump("single_steps", len(times) - 1)
             res.bump("single_source", "recorded driver simulation" if recorded else ("scripted exact" if exact else "scripted tolerance"))
             ok = (compare_paths(res, "MarkovChainSDE", gD, D, tol, ctx) and compare_paths(res, "MarkovChainSDE", gW, W, tol, ctx)
@@ -255,10 +306,10 @@ def single_cases(res, rng, tier):
                 ok = False
             if list(map(float, sp.jump_times)) != times:
                 res.violation("MarkovChainSDE does not return the driver's own time grid", dict(ctx, got_times=list(map(float, sp.jump_times))))
-            if ok:
+            if ok and not tdep:
                 closed_form_violations(res, kind, c, mu, x0, X, dYs, ctx)
             A = "None" if kind == "diag" else f"(Some {mat_lit([[c] * d for _ in range(m)])})"
-            cases.append(f"({A}, {lst([qlit(v) for v in mu])}, {lst([qlit(v) for v in x0])}, {lst([qlit(t) for t in times])}, "
+            cases.append(f"({'true' if tdep else 'false'}, {qlit(beta)}, {A}, {lst([qlit(v) for v in mu])}, {lst([qlit(v) for v in x0])}, {lst([qlit(t) for t in times])}, "
                          f"{mat_lit(jrows)}, {mat_lit(drows)}, {qlit(tol)}, ({mat_lit(gD)}, {mat_lit(gW)}, {mat_lit(gJ)}))")
     return cases
 
@@ -270,7 +321,7 @@ def coupled_cases(res, rng, tier):
     from rpylib.process.coupling.couplingsde import CouplingSDE
     from rpylib.montecarlo.path import StochasticJumpPath, MLMCPath
     cases = []
-    n_proc = 6 if tier == "quick" else 30
+    n_proc = 8 if tier == "quick" else 32
     for ip in range(n_proc):
         d = 2 if ip % 3 == 2 else 1
         kind = "diag" if ip % 2 else "const"
@@ -278,9 +329,11 @@ def coupled_cases(res, rng, tier):
         driver, mkgrid = step_driver(rng, d)
         c = dy(rng, -2, 2, 4) or 1.0
         x0 = [dy(rng, 0.5, 3, 4) for _ in range(m)]
-        ctx0 = {"kind": "coupled", "a": kind, "m": m, "d": d, "c": c, "x0": x0}
+        tdep = ip % 4 >= 2
+        beta = dy(rng, -1, 1, 4) if tdep else 0.0
+        ctx0 = {"kind": "coupled", "a": kind, "m": m, "d": d, "c": c, "x0": x0, "time_dependent": tdep, "beta": beta}
         try:
-            model = LevyDrivenSDEModel(driver=driver, x0=np.array(x0) if m > 1 else x0[0], a=make_a(kind, m, d, c))
+            model = make_model(driver, x0, make_a(kind, m, d, c, tdep), beta)
             cp = CouplingSDE(model, mkgrid(), sampling_method(d))
             prod = the_product()
             cp.initialisation(prod)
@@ -326,27 +379,101 @@ def coupled_cases(res, rng, tier):
                     got[name] = (rows_of(a3[0]), rows_of(a3[1]))
                 exact_all, ok = True, True
                 for comp, (mu, jr, dr) in enumerate(((mu_h, jf, df_), (mu_2h, jc, dc))):
-                    X, D, W, J, dYs = euler_fraction(kind, c, mu, x0, times, jr, dr)
-                    exact = all_doubles([v for col in X + D + W + J for v in col])
+                    X, D, W, J, dYs, inter = euler_fraction(kind, c, mu, x0, times, jr, dr, tdep, beta)
+                    exact = all_doubles([v for col in X + D + W + J for v in col] + inter)
                     exact_all &= exact
                     tol = Fraction(0) if exact else TOL_INEXACT
                     who = "CouplingSDE " + ("fine" if comp == 0 else "coarse")
                     ok &= (compare_paths(res, who, got["D"][comp], D, tol, ctx) and compare_paths(res, who, got["W"][comp], W, tol, ctx)
                            and compare_paths(res, who, got["J"][comp], J, tol, ctx))
-                    if ok:
+                    if ok and not tdep:
                         closed_form_violations(res, kind, c, mu, x0, X, dYs, dict(ctx, component="fine" if comp == 0 else "coarse"))
                 tol = Fraction(0) if exact_all else TOL_INEXACT
-                res.count(("coupled", kind, m, d, level, tuple(times), repr(jf), repr(jc), repr(df_), repr(dc), tuple(x0)),
-                          nontrivial=len(times) > 2, kind=f"coupled {kind} d={d} level={level}")
+                res.count(("coupled", kind, tdep, beta, m, d, level, tuple(times), repr(jf), repr(jc), repr(df_), repr(dc), tuple(x0)),
+                          nontrivial=len(times) > 2, kind=f"coupled {kind}{' time-dependent' if tdep else ''} d={d} level={level}")
                 res.bump("coupled_steps", len(times) - 1)
                 A = "None" if kind == "diag" else f"(Some {mat_lit([[c] * d for _ in range(m)])})"
                 exp = ", ".join(mat_lit(got[nm][comp]) for comp in (0, 1) for nm in ("D", "W", "J"))
-                cases.append(f"({A}, {lst([qlit(v) for v in mu_h])}, {lst([qlit(v) for v in mu_2h])}, {lst([qlit(v) for v in x0])}, "
+                cases.append(f"({'true' if tdep else 'false'}, {qlit(beta)}, {A}, {lst([qlit(v) for v in mu_h])}, {lst([qlit(v) for v in mu_2h])}, {lst([qlit(v) for v in x0])}, "
                              f"{lst([qlit(t) for t in times])}, {mat_lit(jf)}, {mat_lit(df_)}, {mat_lit(jc)}, {mat_lit(dc)}, {qlit(tol)}, ({exp}))")
             else:
                 continue
             break
     return cases
+
+
+# ----------------------------------------------------------------------------- rate models: real sigma(t) coefficient and Libor drift (oracle only)
+def rate_model_oracle(res, rng, tier):
+    """LevyLiborModel / LevyForwardModel with a product maturing at the first tenor: the single and the coupled scheme must be the
+    LEFT-point Euler recursion of the consumed driver path; a(t, x) and sde_drift(t, x) are taken from the implementation as black boxes
+    (tolerance 1e-12; no Coq model of the quadrature-based drift)"""
+    import numpy as np
+    from rpylib.model.levydrivensde.levylibormodel import LevyLiborModel
+    from rpylib.model.levydrivensde.levyforwardmodel import LevyForwardModel
+    from rpylib.process.coupling.couplingsde import CouplingSDE
+    from rpylib.process.markovchain.markovchainsde import MarkovChainSDE
+    from rpylib.montecarlo.path import StochasticJumpPath, MLMCPath
+    from rpylib.product.product import Product
+    from rpylib.product.payoff import Forward
+    from rpylib.product.underlying import Libors
+
+    def left_euler(a, sde_drift, mu, x0, times, jrow, drow):
+        x = np.array([x0], dtype=float).T
+        out = [x.copy()]
+        for i in range(len(times) - 1):
+            t, dt = times[i], times[i + 1] - times[i]
+            A = a(t, x)
+            x = x + (sde_drift(t, x) + A @ np.atleast_2d(mu)) * dt + A @ np.array([[(jrow[i + 1] - jrow[i]) + (drow[i + 1] - drow[i])]])
+            out.append(x.copy())
+        return np.hstack(out) - np.array([x0], dtype=float).T
+
+    for cls in (LevyLiborModel, LevyForwardModel):
+        for it in range(2 if tier == "quick" else 8):
+            m = rng.choice([2, 3])
+            rates = [dy(rng, 0.01, 0.05, 256) for _ in range(m)]
+            tenors = [1.0 + 0.5 * k for k in range(m + 1)]
+            sigma = np.array([[dy(rng, 0.125, 0.5, 8)] for _ in range(m)])
+            driver, mkgrid = step_driver(rng, 1)
+            ctx0 = {"kind": "rate-model", "cls": cls.__name__, "rates": rates, "tenors": tenors, "sigma": sigma.flatten().tolist()}
+            try:
+                model = cls(np.array(rates), list(tenors), sigma, driver)
+                prod = Product(Libors(), Forward(1.0), maturity=tenors[0])
+                cp = CouplingSDE(model, mkgrid(), sampling_method(1))
+                cp.initialisation(prod)
+                pms = [MLMCPath(cp.fine_process.deterministic_path, False)]
+                single = cp.fine_process
+            except Exception as e:  # noqa
+                res.notes.append(f"rate-model oracle: {cls.__name__} could not be built ({type(e).__name__}: {e})")
+                continue
+            for level in (0, 1, 2):
+                if level:
+                    cp.next_level(mc_paths=1, path_managers=pms, product=prod)
+                for ic in range(4):
+                    times, (jf, jc), (df_, dc) = gen_path(rng, 1, True, rng.randrange(2, 7))
+                    ctx = dict(ctx0, level=level, times=times, jump_fine=jf, jump_coarse=jc, diff_fine=df_, diff_coarse=dc)
+                    res.count(("rate", cls.__name__, level, tuple(times), repr(jf), repr(jc)), nontrivial=True, kind=f"{cls.__name__} sigma(t) level={level}")
+                    try:
+                        if level == 0:
+                            single.markov_chain.simulate_one_path = (
+                                lambda t=np.array(times), d=np.array(df_[0]), j=np.array(jf[0]): StochasticJumpPath(t, d.copy(), j.copy()))
+                            got = [np.asarray(single.simulate_one_path().value(), dtype=float)]
+                            mus, rows = [single.markov_chain.process_drift()], [(jf[0], df_[0])]
+                        else:
+                            cp.driver_coupling_process.simulate_one_path_with_coupling = (
+                                lambda t=np.array(times), d=np.array([df_[0], dc[0]]), j=np.array([jf[0], jc[0]]): StochasticJumpPath(t, d.copy(), j.copy()))
+                            v = np.asarray(cp.simulate_one_path_with_coupling().value(), dtype=float)
+                            got, mus, rows = [v[0], v[1]], [cp.mc_drift_h, cp.mc_drift_2h], [(jf[0], df_[0]), (jc[0], dc[0])]
+                    except Exception as e:  # noqa
+                        res.violation(f"{cls.__name__}: the SDE scheme raises {type(e).__name__}", dict(ctx, error=str(e)))
+                        break
+                    for comp, (g, mu, (jr, dr)) in enumerate(zip(got, mus, rows)):
+                        want = left_euler(model.a, cp.fine_process.sde_drift, mu, rates, times, jr, dr)
+                        err = float(np.max(np.abs(g - want)))
+                        if err > 1e-12:
+                            res.violation("rate model: the scheme is not the Euler recursion with a(t_i, X_i) and the drift taken at the LEFT point of each step",
+                                          dict(ctx, component=["fine", "coarse"][comp] if level else "single", max_abs_error=err,
+                                               got=g.tolist(), left_point_euler=want.tolist()))
+                            break
 
 
 # ----------------------------------------------------------------------------- discount factors
@@ -399,20 +526,24 @@ HEADER = """From Coq Require Import ZArith QArith Qabs List Bool.
 From RV Require Import Base.QB Base.QVec Base.QArr Base.Corr Gen.GenC16Rates Model.Euler.
 Import ListNotations.
 Open Scope Q_scope.
-Definition afun (k : option (list (list Q))) := match k with Some A => a_constant A | None => a_diag end.
+Definition afun0 (k : option (list (list Q))) := match k with Some A => a_constant A | None => a_diag end.
+(* harness coefficient: a(t,x) = (1+t) * base(t,x) when time-dependent; sde drift b(t,x) = beta * t * x *)
+Definition afun (tdep : bool) (k : option (list (list Q))) : Q -> list Q -> list (list Q) :=
+  fun t x => if tdep then map (vscale (1 + t)) (afun0 k t x) else afun0 k t x.
+Definition bfun (beta : Q) : Q -> list Q -> list Q := fun t x => vscale (beta * t) x.
 Definition rows_of (m : nat) (path : list (list Q)) : list (list Q) := map (fun k => map (fun v => nth k v 0) path) (seq 0 m).
 Definition mats_eqb (tol : Q) (m : nat) (p : list (list Q) * list (list Q) * list (list Q)) (e : list (list Q) * list (list Q) * list (list Q)) : bool :=
   match p, e with (D, W, J), (eD, eW, eJ) =>
     mat_eqb tol (rows_of m D) eD && mat_eqb tol (rows_of m W) eW && mat_eqb tol (rows_of m J) eJ end.
-Definition sde_check (c : option (list (list Q)) * list Q * list Q * list Q * list (list Q) * list (list Q) * Q
+Definition sde_check (c : bool * Q * option (list (list Q)) * list Q * list Q * list Q * list (list Q) * list (list Q) * Q
                           * (list (list Q) * list (list Q) * list (list Q))) : bool :=
-  match c with (ak, mu, x0, times, jrows, drows, tol, e) =>
-    mats_eqb tol (length x0) (sde_path (afun ak) b_zero mu x0 (steps_of times jrows drows)) e end.
-Definition coupled_check (c : option (list (list Q)) * list Q * list Q * list Q * list Q * list (list Q) * list (list Q) * list (list Q)
+  match c with (tdep, beta, ak, mu, x0, times, jrows, drows, tol, e) =>
+    mats_eqb tol (length x0) (sde_path (afun tdep ak) (bfun beta) mu x0 (steps_of times jrows drows)) e end.
+Definition coupled_check (c : bool * Q * option (list (list Q)) * list Q * list Q * list Q * list Q * list (list Q) * list (list Q) * list (list Q)
                               * list (list Q) * Q * (list (list Q) * list (list Q) * list (list Q) * list (list Q) * list (list Q) * list (list Q))) : bool :=
-  match c with (ak, mu_h, mu_2h, x0, times, jf, df, jc, dc, tol, (fD, fW, fJ, cD, cW, cJ)) =>
+  match c with (tdep, beta, ak, mu_h, mu_2h, x0, times, jf, df, jc, dc, tol, (fD, fW, fJ, cD, cW, cJ)) =>
     let cs := zip_csteps (steps_of times jf df) (steps_of times jc dc) in
-    let tms := ceuler (afun ak) b_zero mu_h mu_2h cs x0 x0 in
+    let tms := ceuler (afun tdep ak) (bfun beta) mu_h mu_2h cs x0 x0 in
     let m := length x0 in
     let f := map fst tms in let co := map snd tms in
     mats_eqb tol m (path_of m (map fst3 f), path_of m (map snd3 f), path_of m (map thd3 f)) (fD, fW, fJ)
@@ -431,10 +562,11 @@ def correspond(res):
     dfs = df_cases(res, rng, tier)
     singles = single_cases(res, rng, tier)
     coupled = coupled_cases(res, rng, tier)
+    rate_model_oracle(res, rng, tier)
     groups = [
-        ("single", "option (list (list Q)) * list Q * list Q * list Q * list (list Q) * list (list Q) * Q * (list (list Q) * list (list Q) * list (list Q))",
+        ("single", "bool * Q * option (list (list Q)) * list Q * list Q * list Q * list (list Q) * list (list Q) * Q * (list (list Q) * list (list Q) * list (list Q))",
          "sde_check", singles),
-        ("coupled", "option (list (list Q)) * list Q * list Q * list Q * list Q * list (list Q) * list (list Q) * list (list Q) * list (list Q) * Q * "
+        ("coupled", "bool * Q * option (list (list Q)) * list Q * list Q * list Q * list Q * list (list Q) * list (list Q) * list (list Q) * list (list Q) * Q * "
                     "(list (list Q) * list (list Q) * list (list Q) * list (list Q) * list (list Q) * list (list Q))", "coupled_check", coupled),
         ("df", "bool * list Q * list Q * Q * Q", "df_check", dfs),
     ]
